@@ -55,6 +55,7 @@ ANCHORS = [
     ("src/easynetwork/lowlevel/api_async/backend/_asyncio/datagram/listener.py", "_DatagramListenerServeContext.handle"),
     ("src/easynetwork/lowlevel/api_async/backend/_asyncio/datagram/listener.py", "DatagramListenerProtocol.datagram_received"),
     ("src/easynetwork/lowlevel/api_async/backend/_asyncio/datagram/listener.py", "DatagramListenerProtocol.__init__"),
+    ("src/easynetwork/lowlevel/api_async/backend/_asyncio/datagram/listener.py", "DatagramListenerProtocol.connection_lost"),
     ("src/easynetwork/lowlevel/api_async/backend/_asyncio/datagram/listener.py", "DatagramListenerProtocol.serve"),
     ("src/easynetwork/lowlevel/api_async/backend/_asyncio/datagram/listener.py", "DatagramListenerSocketAdapter.serve"),
     ("src/easynetwork/servers/misc.py", "build_lowlevel_datagram_server_handler"),
@@ -453,7 +454,99 @@ def hook_restarts_after_generator_cancel() -> bool:
     return _RESTARTS
 
 
+# ------------------------------------------------------------------------------------------------ listener restarts
+def run_listener(labels):
+    """the REAL DatagramListenerProtocol + DatagramListenerSocketAdapter across serve() restarts: [0,a,d] the transport
+    delivers a datagram (protocol.datagram_received) | [1] serve() is awaited | [2] the running serve() is cancelled.
+    Observed: every handler task the listener starts (task_group.start_soon), in order."""
+    dispatched = []
+
+    async def main():
+        from easynetwork.lowlevel.api_async.backend._asyncio.backend import AsyncIOBackend
+        from easynetwork.lowlevel.api_async.backend._asyncio.datagram.listener import (
+            DatagramListenerProtocol, DatagramListenerSocketAdapter)
+        from easynetwork.lowlevel.api_async.backend.abc import TaskGroup
+        loop = asyncio.get_running_loop()
+        backend = AsyncIOBackend()
+        sock = socket.socket(socket.AF_INET, socket.SOCK_DGRAM)
+        sock.bind(("127.0.0.1", 0))
+        sock.setblocking(False)
+        tr, proto = await loop.create_datagram_endpoint(lambda: DatagramListenerProtocol(loop=loop), sock=sock)
+        listener = DatagramListenerSocketAdapter(backend, tr, proto)
+
+        class RecordingTaskGroup(TaskGroup):
+            async def __aenter__(self):
+                return self
+
+            async def __aexit__(self, *args):
+                return None
+
+            def start_soon(self, coro_func, /, *args, name=None):
+                dispatched.append([args[1][1] - 1000, bytes(args[0])])
+
+            async def start(self, coro_func, /, *args, name=None):
+                raise NotImplementedError
+
+        async def handler(data, addr):
+            return None
+
+        srv = None
+        try:
+            for lab in labels:
+                if lab[0] == 0:
+                    proto.datagram_received(bytes(lab[2]), _addr(lab[1]))
+                elif lab[0] == 1:
+                    srv = asyncio.ensure_future(listener.serve(handler, RecordingTaskGroup()))
+                else:
+                    if srv is not None:
+                        srv.cancel()
+                        with contextlib.suppress(BaseException):
+                            await srv
+                        srv = None
+                for _ in range(3):
+                    await asyncio.sleep(0)
+                if srv is not None and srv.done():
+                    exc = srv.exception() if not srv.cancelled() else asyncio.CancelledError()
+                    dispatched.append([-1, b"serve() ended: " + type(exc).__name__.encode()])
+                    srv = None
+        finally:
+            if srv is not None:
+                srv.cancel()
+                with contextlib.suppress(BaseException):
+                    await srv
+            with contextlib.suppress(BaseException):
+                await listener.aclose()
+
+    detloop.run(main(), max_steps=100000)
+    return [dispatched, -1]
+
+
+def _listener_cases(thorough):
+    """every enabled history of {arrive, serve, cancel} up to length 6 (8 thorough) on the real listener protocol, closed
+    by a final serve(): serve -> cancel -> serve with and without a backlog"""
+    maxlen = 8 if thorough else 6
+
+    def rec(prefix, serving, k):
+        if prefix:
+            labels = list(prefix) + ([] if serving else [[1]])
+            kinds = [lab[0] for lab in labels]
+            restart = any(kinds[i] == 2 and 1 in kinds[i + 1:] for i in range(len(kinds)))
+            yield dict(input=[-1, labels], tags=["listener-restart" if restart else "listener", f"labels<={10 * (len(labels) // 10 + 1)}"],
+                       nontrivial=bool(restart and k > 0))
+        if len(prefix) >= maxlen:
+            return
+        yield from rec(prefix + [[0, k % 2, b"d%d" % k]], serving, k + 1)
+        if serving:
+            yield from rec(prefix + [[2]], False, k)
+        else:
+            yield from rec(prefix + [[1]], True, k)
+
+    yield from rec([], False, 0)
+
+
 def run_impl(inp):
+    if inp[0] == -1:
+        return run_listener(inp[1])
     naddr, labels, progs, actions, mode = inp[:5]
     log = run_script(naddr, progs, actions, mode)
     labels2, obs, summary, _ = convert(naddr, log)
@@ -477,6 +570,7 @@ RULE = ("a case is a driver script for the real server (datagram arrivals from 1
         "0/1/2/31..34/40/64/65 datagrams followed by every sequence of up to 3 {loop iteration, late arrival} steps, and "
         "backlogs of 127/128/129/257/1000 (thorough: 3000, 5000) datagrams; handlers yielding float timeouts 0 / 1 tick / "
         "none with datagrams already queued, every action sequence up to length 3 (4) over {arrive, idle, advance 1 tick}. The "
+        "the listener alone across serve() restarts: every enabled history of {arrive, serve, cancel} up to length 6 (8). The "
         "model must also have no scheduler step left enabled when the real server is idle at the end of the script. "
         "Cases whose label sequence was already produced are skipped. Non-trivial = a datagram arrived while its "
         "address had a live generator, a suspended handler or a pending task, or a restart/timeout/discard happened.")
@@ -692,6 +786,7 @@ def cases(tier, rng, escalate):
         yield from _exhaustive2(4, [1], seen)
     yield from _backlog_cases(seen, thorough)
     yield from _timeout_cases(seen, thorough)
+    yield from _listener_cases(thorough)
     n = 12000 if thorough else 2500
     for _ in range(n):
         c = _random_case(rng, seen, thorough)
@@ -737,6 +832,17 @@ def _analyse(naddr, log, where):
 
 
 def oracle(inp):
+    if inp[0] == -1:
+        got, _ = run_listener(inp[1])
+        want = [[lab[1], bytes(lab[2])] for lab in inp[1] if lab[0] == 0]
+        kinds = [lab[0] for lab in inp[1]]
+        serving_at_end = bool(kinds) and (1 in kinds) and (2 not in kinds[len(kinds) - 1 - kinds[::-1].index(1):])
+        for g in got:
+            if g[0] == -1:
+                return f"listener-serve-ended: {g[1].decode()} although nobody cancelled it"
+        if serving_at_end and got != want:
+            return f"listener-conservation: the transport delivered {want!r}, the listener started handler tasks for {got!r}"
+        return None
     naddr, _labels, progs, actions, mode = inp[:5]
     state = {}
 
@@ -777,6 +883,8 @@ def signature(inp, failure):
 
 
 def shrink(inp):
+    if inp[0] == -1:
+        return
     naddr, _labels, progs, actions, mode = inp[:5]
     for i in range(len(actions)):
         yield make_input(naddr, progs, actions[:i] + actions[i + 1:], mode)
@@ -799,7 +907,53 @@ def extra(ctx):
             detail="implementation takes the transition GCancel _ false (no restart after a generator ended with the "
                    "cancelled exception while the server keeps running): outside `Forall ok_label`, refuted by "
                    "state_none_implies_queue_empty_refuted_without_restart"))
-    return dict(hook_restarts_after_generator_cancel=restarts)
+    probe = push_appends_before_first_suspension()
+    if probe is False:
+        ctx.problems.append(dict(
+            kind="proof",
+            detail="model hypothesis refuted: _ClientData.push_datagram() does not append to the queue before its first "
+                   "suspension point when the condition variable's acquire yields (trio semantics); HStart appends first"))
+    return dict(hook_restarts_after_generator_cancel=restarts, push_appends_before_first_suspension=probe)
+
+
+def push_appends_before_first_suspension():
+    """behavioural check of the hypothesis behind HStart ("append BEFORE any await"): the real push_datagram of a client
+    that already has a task, with a condition variable whose acquire yields first (what trio's does); the queue is
+    inspected at the coroutine's first suspension.  None = the private API has another shape (the yieldcond traces of
+    the correspondence still decide it)."""
+    try:
+        from easynetwork.lowlevel.api_async.servers.datagram import _ClientData
+
+        class YieldFirst:
+            async def __aenter__(self):
+                await asyncio.sleep(0)
+                return self
+
+            async def __aexit__(self, *args):
+                return None
+
+            def notify(self, n=1):
+                return None
+
+        class B:
+            def create_condition_var(self, lock=None):
+                return YieldFirst()
+
+        async def main():
+            cd = _ClientData(B())
+            cd.mark_pending()
+            coro = cd.push_datagram(b"x")
+            try:
+                coro.send(None)         # run to the first suspension point
+            except StopIteration:
+                return None             # never suspended: nothing to check
+            ok = (not cd.queue_is_empty())
+            coro.close()
+            return ok
+
+        return detloop.run(main(), max_steps=1000)
+    except (ImportError, AttributeError, TypeError):
+        return None
 
 
 if __name__ == "__main__":
